@@ -554,7 +554,7 @@ class _Universe:
                 b = a + r.randint(0, 5)
                 if pmax is not None: a, b = min(a, pmax), min(b, pmax)
                 if what in ("len", "both"): t["min"], t["max"] = a, b
-                elif what == "min": t["min"] = max(a, 1)
+                elif what == "min": t["min"] = max(a, 1) if r.random() < 0.85 else 0
                 else: t["max"] = b
                 if pmax is not None and t["min"] is not None: t["min"] = min(t["min"], pmax)
             # a format typify does not recognise next to string constraints (an annotation for the validator used here)
